@@ -18,6 +18,7 @@ ASSUMPTIONS = [
     "the jsonl `time` member and the log-file-name stamp use the same DateTime and the same format strings; they are "
     "proved on the model (fmt_iso, fmt_compact) but only iso8601_utc is driven (LogEvent.time is private, LogFile::create uses now())",
 ]
+LEVEL = "proof"
 EXHAUSTIVE = {"quick": False, "thorough": True}
 
 SODS = [0, 1, 59, 60, 3599, 3600, 86399]
